@@ -1,6 +1,78 @@
-(* C02 -- placeholder while proofs are being written *)
+(* C02 -- data channel traffic always drains: the no-deadlock invariants of the sender.
+   Property theorems only; proofs in Proof/SctpTxP.v.
+
+   The sender model (Model/SctpTx.v) takes ANY list of inputs: messages handed to
+   _send (fragments with non-negative sizes), SACK chunks with ANY cumulative TSN and
+   ANY gap blocks (duplicated, reordered, stale, nonsensical ones included -- that is
+   what loss / duplication / reordering of acknowledgement packets produces), T3
+   expiries at any moment it is armed, and the deferred _transmit task at any moment.
+   Lost DATA packets need no input of their own: the chunk simply stays outstanding. *)
 From Coq Require Import ZArith List Bool.
-From AV Require Import Model.SctpTx.
-Theorem C02_stub : forall s : tx, s = s.
-Proof. intros; reflexivity. Qed.
-Print Assumptions C02_stub.
+From AV Require Import Gen.SctpConst Model.SctpTx Proof.SctpTxP.
+Import ListNotations.
+Local Open Scope Z_scope.
+
+(* 1. Flight-size accounting never drifts upward: in every reachable state the flight
+   size is between 0 and the bytes of the chunks that really are in flight (sent, not
+   gap-acked, not marked for retransmission, not abandoned); in particular it is 0
+   whenever nothing is outstanding, and the congestion window never drops below one
+   MTU -- so the window test of _transmit cannot stay shut with nothing outstanding. *)
+Theorem C02_flight_size : forall tsn rwnd ins, Forall wf_input ins ->
+  let s := fst (run (init tsn rwnd) ins) in
+  MTU <= cwnd s /\ 0 <= flight s <= fsum (sentq s) /\ (sentq s = [] -> flight s = 0).
+Proof.
+  intros tsn rwnd ins H s. pose proof (run_inv ins (init tsn rwnd) (inv_init tsn rwnd) H) as I. fold s in I.
+  split; [exact (i_cw s I)|]. split; [exact (i_fl s I)|].
+  intros E. pose proof (i_fl s I) as F. rewrite E in F. cbn in F. apply Z.le_antisymm; tauto.
+Qed.
+Print Assumptions C02_flight_size.
+
+(* 2. No deadlock: in every reachable state, if anything is still outstanding or
+   queued then the retransmission timer is armed or a transmit task is scheduled; and
+   queued data never waits behind an empty sent queue. *)
+Theorem C02_no_deadlock : forall tsn rwnd ins, Forall wf_input ins ->
+  let s := fst (run (init tsn rwnd) ins) in
+  (sentq s <> [] -> t3 s = true \/ pending_tx s = true) /\
+  (outq s <> [] -> sentq s <> [] \/ pending_tx s = true) /\
+  (sentq s <> [] \/ outq s <> [] -> t3 s = true \/ pending_tx s = true).
+Proof.
+  intros tsn rwnd ins H s. pose proof (run_inv ins (init tsn rwnd) (inv_init tsn rwnd) H) as I. fold s in I.
+  assert (A : sentq s <> [] -> t3 s = true \/ pending_tx s = true).
+  { intros Hne. destruct (i_t3 s I Hne) as [X|[X _]]; auto. }
+  split; [exact A|]. split; [exact (i_oq s I)|].
+  intros [X|X]; [now apply A|]. destruct (i_oq s I X) as [Y|Y]; [now apply A|now right].
+Qed.
+Print Assumptions C02_no_deadlock.
+
+(* 3. The invariant is inductive for single steps from ANY state satisfying it (not
+   only from the initial one) -- this is what lets a fault history of any length be
+   followed by a fault-free suffix. *)
+Theorem C02_step_invariant : forall s i, inv s -> wf_input i -> inv (fst (step s i)).
+Proof. exact step_inv. Qed.
+Print Assumptions C02_step_invariant.
+
+(* PARTIAL.  Proved: the sender can never reach a state with work left and nothing
+   armed (the three stall mechanisms repaired in /repo -- flight-size drift, lost
+   FORWARD-TSN, orphan fragments -- are exactly violations of these invariants or of
+   C06).  NOT proved: termination of the healing rounds ("within bounded time both
+   endpoints are quiescent").  That needs the composition of two endpoints with a
+   fair network and a progress measure; it is observed by the two-endpoint simulator
+   (fault prefix, then fault-free delivery and timer firings until quiescence) on
+   every run.  Real time (RTO values) is outside every theorem. *)
+
+(* non-vacuity: 5 chunks, SACKs with a gap report three times -> fast retransmit,
+   then T3, then everything acknowledged: the invariant's hypotheses are met and the
+   run ends quiescent *)
+Example C02_example :
+  let c t := mkSc t 1 0 false true true 1200 false false false 0 0 None None in
+  let ins := [ISendMsg [c 10; c 11; c 12]; ISendMsg [c 13; c 14];
+              ISack 10 [(2, 2)] 0; ISack 10 [(2, 3)] 0; ISack 10 [(2, 4)] 0;
+              IT3 5; IRunTransmit; ISack 14 [] 9] in
+  Forall wf_input ins /\
+  let s := fst (run (init 10 1048576) ins) in
+  sentq s = [] /\ outq s = [] /\ flight s = 0 /\ t3 s = false.
+Proof.
+  cbv zeta. split.
+  - repeat constructor; unfold bok; cbn; try reflexivity; discriminate.
+  - vm_compute. repeat split.
+Qed.
